@@ -327,6 +327,16 @@ impl<const M: usize> Drv<M> {
     }
 
     fn check_contents(&mut self) {
+        // C10: the safe and the raw chunk iterators yield the same sequence
+        if let Some(b) = self.bump.as_mut() {
+            let raw: Vec<(usize, usize)> = unsafe { b.iter_allocated_chunks_raw().map(|(p, l)| (p as usize, l)).collect() };
+            let safe: Vec<(usize, usize)> = b.iter_allocated_chunks().map(|c| (c.as_ptr() as usize, c.len())).collect();
+            if raw != safe {
+                let show = |v: &Vec<(usize, usize)>| v.iter().map(|(p, l)| format!("{}:{}", p, l)).collect::<Vec<_>>().join(",");
+                let msg = format!("K bad chunk iterators disagree raw=[{}] safe=[{}]", show(&raw), show(&safe));
+                self.line(&msg);
+            }
+        }
         let mut bad = None;
         let mut n = 0;
         for (i, b) in self.blks.iter().enumerate() {
